@@ -356,9 +356,14 @@ impl Worker {
 /// how much slower than on an idle machine this run can expect to be: load average over processors,
 /// between 1 and 4
 pub fn load_factor() -> f64 {
+    load_factor_upto(4.0)
+}
+
+/// one-minute load average over processors, between 1 and `max`
+pub fn load_factor_upto(max: f64) -> f64 {
     let load: f64 = std::fs::read_to_string("/proc/loadavg").ok().and_then(|s| s.split_whitespace().next().and_then(|x| x.parse().ok())).unwrap_or(0.0);
     let cpus = std::thread::available_parallelism().map(|n| n.get()).unwrap_or(1) as f64;
-    (load / cpus).clamp(1.0, 4.0)
+    (load / cpus).clamp(1.0, max)
 }
 
 pub fn process_cpu_ms() -> u64 {
@@ -589,7 +594,10 @@ pub fn supervise(opts: &SuperOpts, crash_sig: CrashSig, totals: &mut Totals) {
     let mut live = opts.workers;
     // the cap is meant for an otherwise idle machine: when other work competes for the processors (the
     // one-minute load average at the start exceeds their number) it is stretched accordingly, up to 4x
-    let wall_cap = opts.wall_cap.mul_f64(load_factor());
+    // the wall cap is a backstop by the clock, the watchdogs count processor time: on a crowded machine the
+    // cap must leave the watchdog of a case that hangs the time to fire (its processor seconds take
+    // load / processors times as long by the clock), so the cap follows the load further than the limits do
+    let wall_cap = opts.wall_cap.mul_f64(load_factor_upto(8.0));
 
     while live > 0 {
         let msg = rx.recv_timeout(Duration::from_millis(200));
@@ -639,7 +647,7 @@ pub fn supervise(opts: &SuperOpts, crash_sig: CrashSig, totals: &mut Totals) {
                 let kind = if ws[i].hung.is_some() { "hang" } else { "abort" };
                 let (idx, case) = match (&ws[i].hung, &ws[i].last_b) {
                     (Some(h), Some((b, v))) if h == b => (*h, v.clone()),
-                    (Some(h), _) => (*h, Value::Null),
+                    (Some(h), _) => (*h, json!({"kind": "case-index", "index": h, "how": "the check does not announce its cases; `DSMC_DESCRIBE=1 dsmc worker <ID> --tier <tier> --only <index>` prints the case before running it"})),
                     (None, Some((b, v))) => (*b, v.clone()),
                     (None, None) => {
                         totals.machinery_error = Some(format!(
